@@ -13,6 +13,7 @@ Both are conservative: whatever does not fit the supported shapes is left exactl
 import ast
 import copy
 
+MATCH_ACCESSORS = {"group", "groups", "start", "end", "span"}
 MUTATORS = {"append", "extend", "insert", "remove", "pop", "clear", "sort", "reverse", "update", "setdefault", "popitem", "add", "discard"}
 
 
@@ -91,6 +92,24 @@ def _names(node, store=None):
         if isinstance(n, ast.arg):
             out.add(n.arg)
     return out
+
+
+PURE_METHODS = {"encode", "decode", "strip", "lstrip", "rstrip", "lower", "upper", "startswith", "endswith"}
+PURE_BUILTINS = {"len", "str", "bytes", "int", "repr", "bool"}
+
+
+def _pure_expr(a):
+    """Evaluating it twice gives the same value twice and has no effect (so a parameter used twice may be replaced by it)."""
+    if isinstance(a, (ast.Name, ast.Constant)):
+        return True
+    if isinstance(a, ast.Attribute):
+        return isinstance(a.value, ast.Name)
+    if isinstance(a, ast.Call) and not a.keywords and all(_pure_expr(x) for x in a.args):
+        if isinstance(a.func, ast.Attribute) and a.func.attr in PURE_METHODS:
+            return _pure_expr(a.func.value) and all(isinstance(x, ast.Constant) for x in a.args)
+        if isinstance(a.func, ast.Name) and a.func.id in PURE_BUILTINS:
+            return True
+    return False
 
 
 def _inlinable(h):
@@ -244,6 +263,8 @@ def _falls_through(stmts):
         return False
     if isinstance(last, ast.If) and last.orelse:
         return _falls_through(last.body) or _falls_through(last.orelse)
+    if isinstance(last, ast.Try) and not last.finalbody:
+        return _falls_through(last.body + last.orelse) or any(_falls_through(hd.body) for hd in last.handlers)
     return True
 
 
@@ -257,9 +278,12 @@ class Inliner:
 
     # ---- call site shapes -----------------------------------------------------
     @staticmethod
-    def _site(st):
-        """(call, mode) when st has one of the supported shapes."""
+    def _site(st, alt=False):
+        """(call, mode) when st has one of the supported shapes (alt: the second reading of an expression statement)."""
         if isinstance(st, ast.Expr) and isinstance(st.value, ast.Call):
+            if alt and st.value.args and isinstance(st.value.args[0], ast.Call) and not st.value.keywords and (
+                    isinstance(st.value.func, ast.Name) or (isinstance(st.value.func, ast.Attribute) and isinstance(st.value.func.value, ast.Name))):
+                return st.value.args[0], "arg0"  # acc.append(helper(x)): the helper's result is the first thing evaluated
             return st.value, "expr"
         if isinstance(st, ast.Return) and isinstance(st.value, ast.Call):
             return st.value, "return"
@@ -286,8 +310,16 @@ class Inliner:
 
     def run(self, func):
         self._comprehensions(func)
+        c0 = self.count
         self._expressions(func)
+        if self.count != c0:
+            relink(func.node, getattr(func.node, "_parent", None))
+        before = self.count
         self._block_owner(func.node, func, 0)
+        if self.count != before:
+            # bodies copied in from helpers bring their own calls of single-expression helpers
+            relink(func.node, getattr(func.node, "_parent", None))
+            self._expressions(func)
         return self.count
 
     def _comprehensions(self, func):
@@ -399,9 +431,7 @@ class Inliner:
                         if not isinstance(n.ctx, ast.Load):
                             return c
                 for p_, a in bound.items():
-                    simple = isinstance(a, (ast.Name, ast.Constant)) or (
-                        isinstance(a, ast.Attribute) and isinstance(a.value, ast.Name))
-                    if not simple and uses.get(p_, 0) > 1:
+                    if not _pure_expr(a) and uses.get(p_, 0) > 1:
                         return c
                 # names of the helper's expression that are neither parameters nor its self: globals / builtins, unchanged
                 rename = {hself: caller_self} if hself is not None and hself != caller_self else {}
@@ -429,6 +459,11 @@ class Inliner:
                 continue
             call, mode = self._site(st)
             h = self.resolve(call, func) if call is not None and depth < self.max_depth else None
+            if h is None and mode == "expr" and depth < self.max_depth:
+                call2, mode2 = self._site(st, alt=True)
+                if mode2 == "arg0" and self.resolve(call2, func) is not None:
+                    call, mode = call2, mode2
+                    h = self.resolve(call, func)
             if h is not None and h is not func and _inlinable(h) and not (mode == "expr" and _effect_free(h)):
                 follow = None
                 if mode == "assign" and i + 1 < len(stmts) and isinstance(stmts[i + 1], ast.If):
@@ -468,11 +503,13 @@ class Inliner:
                         inside = True
                         break
                     p = getattr(p, "_parent", None)
-                if not inside:
+                if not inside and not _exclusive(st, n):
                     return True
         # a loop around st re-reads whatever precedes it
         p = getattr(st, "_parent", None)
         while p is not None and p is not func.node:
+            if isinstance(p, ast.For) and isinstance(p.target, ast.Name) and p.target.id == name:
+                return False  # the loop binds the name afresh for every iteration
             if isinstance(p, (ast.For, ast.While)):
                 return any(isinstance(n, ast.Name) and n.id == name and isinstance(n.ctx, ast.Load) for n in ast.walk(p)
                            if not _inside(n, st))
@@ -561,12 +598,19 @@ class Inliner:
             elif mode == "tuple":
                 tnames = [t.id for t in st.targets[0].elts]
                 res = "%s_ret" % tag
-            elif mode in ("value", "test", "iter"):
+            elif mode in ("value", "test", "iter", "arg0"):
                 res = "%s_ret" % tag
             # the statement that tests the result right away (`if helper():` / `x = helper()` + `if x is None:`): a return of a
             # constant decides that test, so the decided branch is executed at the return site (keeps "this exit <=> that outcome")
             tested = st if mode == "test" else follow
             tvar = res
+            dtest = None
+            if tested is not None:
+                dtest = tested.test
+                if mode == "test":
+                    # the call is still spelled in the test: decide on the variable that will stand for its result
+                    nm0 = ast.Name(id=res, ctx=ast.Load())
+                    dtest = ast.UnaryOp(op=ast.Not(), operand=nm0) if isinstance(st.test, ast.UnaryOp) else nm0
             thread = tested is not None and _size(tested.body) + _size(tested.orelse) <= 12
             after_label = label + "a"
             nthreaded = [0]
@@ -576,9 +620,28 @@ class Inliner:
                 lv.label = lab
                 return lv
 
+            def value_threadable():
+                # the result is only ever looked at by the test that follows: the returned expression can stand in the test itself
+                if not thread or tnames is not None or dtest is None:
+                    return False
+                if sum(1 for n in ast.walk(dtest) if isinstance(n, ast.Name) and n.id == tvar) != 1:
+                    return False
+                if mode == "test":
+                    return True
+                if tvar in _names(ast.Module(body=list(tested.body) + list(tested.orelse), type_ignores=[])):
+                    return False
+                return not self._loaded_after(func, tested, tvar)
+            vthread = value_threadable()
+
             def make(v):
                 outl = []
                 val = v if v is not None else ast.Constant(value=None)
+                if vthread and not isinstance(val, ast.Constant) and nthreaded[0] < 8:
+                    nthreaded[0] += 1
+                    t = _Subst({tvar: val}).visit(clone(dtest))
+                    outl.append(ast.If(test=t, body=clone(tested.body) or [ast.Pass()], orelse=clone(tested.orelse)))
+                    outl.append(leave_to(after_label))
+                    return outl
                 if tnames is not None and isinstance(val, ast.Tuple) and len(val.elts) == len(tnames) and not (
                         _names(val) & set(tnames)):
                     for nm, ev in zip(tnames, val.elts):
@@ -592,7 +655,7 @@ class Inliner:
                 elif v is not None and any(isinstance(x, ast.Call) for x in ast.walk(v)):
                     outl.append(ast.Expr(value=v))
                 if thread and isinstance(val, ast.Constant) and nthreaded[0] < 8:
-                    verdict = _decide(tested.test, tvar, val.value)
+                    verdict = _decide(dtest, tvar, val.value)
                     if verdict is not None:
                         nthreaded[0] += 1
                         outl.extend(clone(tested.body if verdict else tested.orelse))
@@ -611,6 +674,9 @@ class Inliner:
                 pass  # the targets were assigned at every return site
             if mode == "value":
                 st.value = ast.Name(id=res, ctx=ast.Load())
+                rep.append(st)
+            elif mode == "arg0":
+                st.value.args[0] = ast.Name(id=res, ctx=ast.Load())
                 rep.append(st)
             elif mode == "iter":
                 st.iter = ast.Name(id=res, ctx=ast.Load())
@@ -646,6 +712,27 @@ class Inliner:
                     n.end_lineno = getattr(st, "end_lineno", st.lineno)
                     n.end_col_offset = getattr(st, "end_col_offset", 0)
         return rep
+
+
+def _exclusive(a, b):
+    """a sits in the body of an `if` whose else-part holds b (or the reverse): no path runs both."""
+    chain = []
+    p = a
+    while p is not None:
+        chain.append(p)
+        p = getattr(p, "_parent", None)
+    q, child = getattr(b, "_parent", None), b
+    while q is not None:
+        if isinstance(q, ast.If) and q in chain:
+            # which parts of q hold a and b?
+            ca = chain[chain.index(q) - 1] if chain.index(q) > 0 else None
+            in_body_a = any(ca is x for x in q.body)
+            in_else_a = any(ca is x for x in q.orelse)
+            in_body_b = any(child is x for x in q.body)
+            in_else_b = any(child is x for x in q.orelse)
+            return (in_body_a and in_else_b) or (in_else_a and in_body_b)
+        child, q = q, getattr(q, "_parent", None)
+    return False
 
 
 def _inside(n, anc):
@@ -705,6 +792,10 @@ def _is_path(e, depth=0):
         return _is_path(e.value, depth + 1) or isinstance(e.value, ast.Name)
     if isinstance(e, ast.Call) and isinstance(e.func, ast.Name) and e.func.id == "len" and len(e.args) == 1 and not e.keywords:
         return _is_path(e.args[0], 1) or isinstance(e.args[0], ast.Name)
+    if isinstance(e, ast.Call) and isinstance(e.func, ast.Attribute) and e.func.attr in MATCH_ACCESSORS and not e.keywords \
+            and all(isinstance(a, ast.Constant) for a in e.args):
+        # m.group(1): a match object never changes, the accessor reads the same thing wherever it is written
+        return isinstance(e.func.value, ast.Name) or _is_path(e.func.value, depth + 1)
     if isinstance(e, ast.Tuple) and e.elts and depth == 0:
         # a tuple of class references (isinstance second operand)
         return all(isinstance(x, ast.Name) or (isinstance(x, ast.Attribute) and isinstance(x.value, ast.Name)) for x in e.elts) \
@@ -839,11 +930,15 @@ def propagate_paths(func):
 
 
 # ------------------------------------------------------------------------------------------------ module constants
-def _immutable_literal(e, consts):
+BUILTIN_TYPE_NAMES = {"bytes", "str", "int", "float", "bool", "object", "list", "tuple", "dict", "set", "bytearray", "type"}
+
+
+def _immutable_literal(e, consts, defs=()):
     if isinstance(e, ast.Constant):
         return True
     if isinstance(e, ast.Tuple):
-        return all(_immutable_literal(x, consts) or _class_ref(x) for x in e.elts)
+        return all(_immutable_literal(x, consts, defs) or _class_ref(x) or (isinstance(x, ast.Name) and (x.id in defs or x.id in BUILTIN_TYPE_NAMES))
+                   for x in e.elts)
     if isinstance(e, ast.Name):
         return e.id in consts
     if isinstance(e, ast.BinOp) and isinstance(e.op, (ast.Add, ast.Mod, ast.BitOr)):
@@ -888,6 +983,8 @@ def inline_constants(module, known_names):
         if isinstance(n, ast.alias):
             nm = (n.asname or n.name).split(".")[0]
             stores[nm] = stores.get(nm, 0) + 1
+    # functions and classes defined once at module level: a reference to one means the same thing wherever it is written
+    defs = {st.name for st in tree.body if isinstance(st, (ast.FunctionDef, ast.ClassDef)) and stores.get(st.name, 0) == 1}
     consts = {}
     changed = True
     while changed:
@@ -897,7 +994,7 @@ def inline_constants(module, known_names):
                 continue
             if nm.startswith("__") and nm.endswith("__"):
                 continue
-            if _immutable_literal(vals[0], consts):
+            if _immutable_literal(vals[0], consts, defs):
                 consts[nm] = vals[0]
                 changed = True
     if not consts:
@@ -945,6 +1042,7 @@ def hoist_walrus(func_node):
     """`if (m := E) is not None:` -> `m = E` followed by `if m is not None:` when the assignment expression is the first thing the
     test evaluates (so hoisting does not change when, or whether, E is evaluated).  Loop tests are left alone."""
     count = [0]
+    seq = [0]
 
     def first_evaluated(test):
         """path (list of (parent, field, index)) to a NamedExpr that is evaluated first and unconditionally"""
@@ -979,6 +1077,32 @@ def hoist_walrus(func_node):
             for owner, fld, lst in _stmt_lists(st):
                 if not isinstance(st, (ast.FunctionDef, ast.AsyncFunctionDef, ast.ClassDef)):
                     setattr(owner, fld, block(lst))
+            if isinstance(st, ast.If) and isinstance(st.test, ast.BoolOp) and isinstance(st.test.op, ast.And):
+                # `if A and (m := E):` -> `if A:` around `if (m := E):` (the second operand is only evaluated when A holds)
+                vals = st.test.values
+                k = next((i for i, v in enumerate(vals) if any(isinstance(n, ast.NamedExpr) for n in ast.walk(v))), None)
+                if k is not None and k >= 1 and first_evaluated(vals[k]) is not None:
+                    outer_t = vals[0] if k == 1 else ast.copy_location(ast.BoolOp(op=ast.And(), values=vals[:k]), st.test)
+                    inner_t = vals[k] if k == len(vals) - 1 else ast.copy_location(ast.BoolOp(op=ast.And(), values=vals[k:]), st.test)
+                    count[0] += 1
+                    if not st.orelse:
+                        inner = ast.copy_location(ast.If(test=inner_t, body=st.body, orelse=[]), st)
+                        st.test = outer_t
+                        st.body = block([inner])
+                    else:
+                        seq[0] += 1
+                        lab = "walrus%d" % seq[0]
+                        lv = InlineLeave()
+                        lv.label = lab
+                        ast.copy_location(lv, st)
+                        inner = ast.copy_location(ast.If(test=inner_t, body=st.body + [lv], orelse=[]), st)
+                        outer = ast.copy_location(ast.If(test=outer_t, body=block([inner]), orelse=[]), st)
+                        blk = InlineBlock(body=[outer] + st.orelse)
+                        blk.label = lab
+                        blk.helper = "<walrus>"
+                        ast.copy_location(blk, st)
+                        out.append(blk)
+                        continue
             if isinstance(st, ast.If):
                 ne = first_evaluated(st.test)
                 if ne is not None and isinstance(ne.target, ast.Name):
@@ -1100,3 +1224,590 @@ def devirtualise(func_node):
         relink(func_node, getattr(func_node, "_parent", None))
     return count[0]
 
+
+
+# ------------------------------------------------------------------------------------------------ tables of steps
+def _bindings(func_node):
+    """name -> number of bindings in the function (parameters, assignments, loop targets, defs, imports, with/except names),
+    nested scopes not entered."""
+    out = {}
+    a = func_node.args
+    for p in a.posonlyargs + a.args + a.kwonlyargs + ([a.vararg] if a.vararg else []) + ([a.kwarg] if a.kwarg else []):
+        out[p.arg] = out.get(p.arg, 0) + 1
+    for n in _walk_no_defs(func_node):
+        if isinstance(n, ast.Name) and isinstance(n.ctx, (ast.Store, ast.Del)):
+            out[n.id] = out.get(n.id, 0) + 1
+        elif isinstance(n, ast.ExceptHandler) and n.name:
+            out[n.name] = out.get(n.name, 0) + 1
+        elif isinstance(n, ast.alias):
+            nm = (n.asname or n.name).split(".")[0]
+            out[nm] = out.get(nm, 0) + 1
+    for n in ast.iter_child_nodes(func_node):
+        pass
+    for n in ast.walk(func_node):
+        if n is not func_node and isinstance(n, (ast.FunctionDef, ast.AsyncFunctionDef, ast.ClassDef)) and _directly_in(n, func_node):
+            out[n.name] = out.get(n.name, 0) + 1
+    return out
+
+
+def _directly_in(n, func_node):
+    p = getattr(n, "_parent", None)
+    while p is not None and p is not func_node:
+        if isinstance(p, (ast.FunctionDef, ast.AsyncFunctionDef, ast.Lambda, ast.ClassDef)):
+            return False
+        p = getattr(p, "_parent", None)
+    return p is func_node
+
+
+def _table_elt(e, nb):
+    """An element whose value does not depend on where it is evaluated inside the function."""
+    if isinstance(e, ast.Constant):
+        return True
+    if isinstance(e, ast.Lambda):
+        a = e.args
+        return not (a.defaults or a.kw_defaults)  # free names are read when it is called, here as there
+    if isinstance(e, ast.Name):
+        return nb.get(e.id, 0) <= 1
+    if isinstance(e, (ast.Tuple, ast.List)):
+        return all(_table_elt(x, nb) for x in e.elts)
+    return False
+
+
+def _const_to_ast(v):
+    if isinstance(v, tuple):
+        return ast.Tuple(elts=[_const_to_ast(x) for x in v], ctx=ast.Load())
+    return ast.Constant(value=v)
+
+
+def _own_jumps(stmts):
+    """break / continue statements of the loop whose body is stmts (inner loops keep theirs)."""
+    out = []
+    todo = list(stmts)
+    while todo:
+        n = todo.pop()
+        if isinstance(n, (ast.Break, ast.Continue)):
+            out.append(n)
+        elif isinstance(n, (ast.For, ast.While, ast.AsyncFor)):
+            todo.extend(n.orelse)
+        elif isinstance(n, (ast.FunctionDef, ast.AsyncFunctionDef, ast.ClassDef)):
+            continue
+        else:
+            for _, _, lst in _stmt_lists(n):
+                todo.extend(lst)
+            if isinstance(n, ast.With):
+                pass
+            if hasattr(ast, "Match") and isinstance(n, ast.Match):
+                for c in n.cases:
+                    todo.extend(c.body)
+    return out
+
+
+class _Subst(ast.NodeTransformer):
+    def __init__(self, mapping):
+        self.mapping = mapping
+
+    def visit_Name(self, n):
+        if isinstance(n.ctx, ast.Load) and n.id in self.mapping:
+            return clone(self.mapping[n.id])
+        return n
+
+    def visit_Lambda(self, n):
+        shadow = {a.arg for a in n.args.posonlyargs + n.args.args + n.args.kwonlyargs}
+        if shadow & set(self.mapping):
+            return n
+        return self.generic_visit(n)
+
+
+def _beta(root):
+    """`(lambda a, b: e)(x, y)` -> e[a:=x, b:=y] when every argument is simple or used once."""
+    count = [0]
+
+    class T(ast.NodeTransformer):
+        def visit_Call(self, c):
+            self.generic_visit(c)
+            f = c.func
+            if not isinstance(f, ast.Lambda) or c.keywords or any(isinstance(a, ast.Starred) for a in c.args):
+                return c
+            a = f.args
+            if a.vararg or a.kwarg or a.kwonlyargs or a.defaults or a.kw_defaults:
+                return c
+            params = [p.arg for p in a.posonlyargs + a.args]
+            if len(params) != len(c.args):
+                return c
+            uses = {}
+            for n in ast.walk(f.body):
+                if isinstance(n, ast.Name) and n.id in params:
+                    uses[n.id] = uses.get(n.id, 0) + 1
+                if isinstance(n, ast.Lambda):
+                    return c
+            for p, x in zip(params, c.args):
+                if not isinstance(x, (ast.Name, ast.Constant)) and uses.get(p, 0) != 1:
+                    return c
+            count[0] += 1
+            new = _Subst(dict(zip(params, c.args))).visit(clone(f.body))
+            return ast.copy_location(new, c)
+    T().visit(root)
+    return count[0]
+
+
+def unroll_tables(func_node):
+    """Table-driven spellings are put back into straight-line code:
+
+    * a local bound once to a literal tuple/list of constants, names and lambdas, and only iterated over, is replaced by the literal;
+    * `for x in (<literal elements>)` (at most 8) becomes one copy of the body per element (break / continue become leaves);
+    * `return all(e for x in <literal>)`, `v = any(...)`, `if all(...)` become the chain of tests they stand for;
+    * `(lambda: e)()` becomes e.
+    Returns the number of rewrites."""
+    relink(func_node, getattr(func_node, "_parent", None))
+    count = 0
+    nb = _bindings(func_node)
+
+    # -- (1) literal tables held in a local
+    for st in list(func_node.body):
+        if not (isinstance(st, ast.Assign) and len(st.targets) == 1 and isinstance(st.targets[0], ast.Name)
+                and isinstance(st.value, (ast.Tuple, ast.List)) and st.value.elts):
+            continue
+        name = st.targets[0].id
+        if nb.get(name, 0) != 1 or not all(_table_elt(e, nb) for e in st.value.elts):
+            continue
+        loads = [n for n in ast.walk(func_node) if isinstance(n, ast.Name) and n.id == name and isinstance(n.ctx, ast.Load)]
+        if not loads:
+            continue
+        ok = True
+        for n in loads:
+            p = getattr(n, "_parent", None)
+            if isinstance(p, ast.For) and p.iter is n and _directly_in(p, func_node):
+                continue
+            if isinstance(p, ast.comprehension) and p.iter is n:
+                continue
+            ok = False
+        if not ok or any(getattr(n, "lineno", 0) < st.lineno for n in loads):
+            continue
+        for n in loads:
+            p = n._parent
+            p.iter = clone(st.value)
+        func_node.body.remove(st)
+        count += 1
+    if count:
+        relink(func_node, getattr(func_node, "_parent", None))
+
+    seq = [0]
+
+    def elements(it):
+        if isinstance(it, (ast.Tuple, ast.List)):
+            return list(it.elts)
+        if isinstance(it, ast.Constant) and isinstance(it.value, tuple):
+            return [_const_to_ast(v) for v in it.value]
+        return None
+
+    def destructure(target, elt):
+        """[(name, expr)] or None"""
+        if isinstance(target, ast.Name):
+            return [(target.id, elt)]
+        if isinstance(target, (ast.Tuple, ast.List)) and all(isinstance(t, ast.Name) for t in target.elts):
+            parts = elements(elt)
+            if parts is None or len(parts) != len(target.elts):
+                return None
+            return [(t.id, p) for t, p in zip(target.elts, parts)]
+        return None
+
+    def used_outside(name, loop):
+        for n in ast.walk(func_node):
+            if isinstance(n, ast.Name) and n.id == name and isinstance(n.ctx, ast.Load) and not _inside(n, loop):
+                return True
+        return False
+
+    def mark(nodes, anchor):
+        for r in nodes:
+            for n in ast.walk(r):
+                if isinstance(n, (ast.stmt, ast.expr)):
+                    n._inl_anchor = anchor
+                    if not hasattr(n, "lineno"):
+                        n.lineno, n.col_offset, n.end_lineno, n.end_col_offset = anchor, 0, anchor, 0
+
+    def leave_to(lab):
+        lv = InlineLeave()
+        lv.label = lab
+        return lv
+
+    def bind(pairs, body_src, loop, force_assign=False):
+        """statements binding the pairs + a copy of body_src with the substitutable ones replaced"""
+        stored = set()
+        for s_ in body_src:
+            stored |= _names(s_, store=True)
+        captured = set()
+        for s_ in body_src:
+            for n in ast.walk(s_):
+                if isinstance(n, (ast.Lambda, ast.FunctionDef, ast.AsyncFunctionDef)):
+                    captured |= _names(n)
+        mapping, pre = {}, []
+        for nm, ex in pairs:
+            if not force_assign and nm not in stored and nb.get(nm, 0) == 1 and _table_elt(ex, nb) and not isinstance(ex, (ast.Tuple, ast.List)) \
+                    and (loop is None or not used_outside(nm, loop)) and nm not in captured:
+                mapping[nm] = ex
+            else:
+                pre.append(ast.Assign(targets=[ast.Name(id=nm, ctx=ast.Store())], value=clone(ex)))
+        body = [_Subst(mapping).visit(clone(s_)) for s_ in body_src] if mapping else clone(body_src)
+        return pre, body
+
+    def unroll(st):
+        elts = elements(st.iter)
+        if elts is None or len(elts) > 8 or st.orelse and not elts:
+            return None
+        per = []
+        for e in elts:
+            if isinstance(e, ast.Starred):
+                return None
+            pairs = destructure(st.target, e)
+            if pairs is None:
+                return None
+            per.append(pairs)
+        # a closure created in the body sees the loop variable's last value: leave such loops alone
+        tnames = {nm for pairs in per for nm, _ in pairs}
+        for s_ in st.body:
+            for n in ast.walk(s_):
+                if isinstance(n, (ast.Lambda, ast.FunctionDef, ast.AsyncFunctionDef)) and _names(n) & tnames:
+                    return None
+        jumps = _own_jumps(st.body)
+        has_break = any(isinstance(j, ast.Break) for j in jumps)
+        has_cont = any(isinstance(j, ast.Continue) for j in jumps)
+        seq[0] += 1
+        loop_label = "loop%d" % seq[0]
+        out = []
+        for k, pairs in enumerate(per):
+            pre, body = bind(pairs, st.body, st)
+            it_label = "%si%d" % (loop_label, k)
+
+            def rej(stmts):
+                res = []
+                for s_ in stmts:
+                    if isinstance(s_, ast.Break):
+                        res.append(leave_to(loop_label))
+                        continue
+                    if isinstance(s_, ast.Continue):
+                        res.append(leave_to(it_label))
+                        continue
+                    if isinstance(s_, (ast.For, ast.While, ast.AsyncFor)):
+                        s_.orelse = rej(s_.orelse)
+                    elif not isinstance(s_, (ast.FunctionDef, ast.AsyncFunctionDef, ast.ClassDef)):
+                        for owner, fld, lst in _stmt_lists(s_):
+                            setattr(owner, fld, rej(lst))
+                    res.append(s_)
+                return res
+            if jumps:
+                body = rej(body)
+            if has_cont:
+                blk = InlineBlock(body=body or [ast.Pass()])
+                blk.label = it_label
+                blk.helper = "<unrolled loop>"
+                body = [blk]
+            out.extend(pre + body)
+        out.extend(clone(st.orelse))
+        if has_break:
+            blk = InlineBlock(body=out or [ast.Pass()])
+            blk.label = loop_label
+            blk.helper = "<unrolled loop>"
+            out = [blk]
+        if not out:
+            out = [ast.Pass()]
+        mark(out, int(getattr(st, "_inl_anchor", st.lineno)))
+        return out
+
+    def quantifier(e):
+        """(kind, elt, pairs per element, ifs) for all(<genexpr over a literal>) / any(...)"""
+        if not (isinstance(e, ast.Call) and isinstance(e.func, ast.Name) and e.func.id in ("all", "any") and len(e.args) == 1
+                and not e.keywords and isinstance(e.args[0], (ast.GeneratorExp, ast.ListComp)) and len(e.args[0].generators) == 1):
+            return None
+        if nb.get(e.func.id, 0):
+            return None
+        g = e.args[0].generators[0]
+        if g.is_async:
+            return None
+        elts = elements(g.iter)
+        if elts is None or not 0 < len(elts) <= 8:
+            return None
+        per = []
+        for x in elts:
+            if isinstance(x, ast.Starred) or not _table_elt(x, nb):
+                return None
+            pairs = destructure(g.target, x)
+            if pairs is None:
+                return None
+            per.append(pairs)
+        return e.func.id, e.args[0].elt, per, list(g.ifs)
+
+    def expand_quantifier(q, on_decided, anchor):
+        """statements: for each element, `if [not] elt: <on_decided>`"""
+        kind, elt, per, ifs = q
+        out = []
+        for pairs in per:
+            mapping = {nm: ex for nm, ex in pairs}
+            t = _Subst(mapping).visit(clone(elt))
+            test = ast.UnaryOp(op=ast.Not(), operand=t) if kind == "all" else t
+            cur = [ast.If(test=test, body=on_decided(), orelse=[])]
+            for c in reversed(ifs):
+                cur = [ast.If(test=_Subst(mapping).visit(clone(c)), body=cur, orelse=[])]
+            out.extend(cur)
+        return out
+
+    def first_match(e):
+        """(elt, pairs per element, ifs, default) for next(<genexpr over a literal>[, default])"""
+        if not (isinstance(e, ast.Call) and isinstance(e.func, ast.Name) and e.func.id == "next" and 1 <= len(e.args) <= 2
+                and not e.keywords and isinstance(e.args[0], ast.GeneratorExp) and len(e.args[0].generators) == 1) or nb.get("next", 0):
+            return None
+        g = e.args[0].generators[0]
+        elts = elements(g.iter)
+        if g.is_async or elts is None or not 0 < len(elts) <= 8:
+            return None
+        per = []
+        for x in elts:
+            if isinstance(x, ast.Starred) or not _table_elt(x, nb):
+                return None
+            pairs = destructure(g.target, x)
+            if pairs is None:
+                return None
+            per.append(pairs)
+        default = e.args[1] if len(e.args) == 2 else None
+        if default is not None and not isinstance(default, (ast.Constant, ast.Name)):
+            return None
+        return e.args[0].elt, per, list(g.ifs), default
+
+    skip = set()
+
+    def block(stmts):
+        nonlocal count
+        out = []
+        for idx, st in enumerate(stmts):
+            if id(st) in skip:
+                continue
+            pending = stmts[idx + 1:idx + 2]
+            if isinstance(st, (ast.FunctionDef, ast.AsyncFunctionDef, ast.ClassDef)):
+                out.append(st)
+                continue
+            for owner, fld, lst in _stmt_lists(st):
+                setattr(owner, fld, block(lst))
+            if isinstance(st, ast.For):
+                rep = unroll(st)
+                if rep is not None:
+                    count += 1
+                    out.extend(rep)
+                    continue
+            anchor = int(getattr(st, "_inl_anchor", getattr(st, "lineno", 0)))
+            if isinstance(st, ast.Return) and st.value is not None:
+                q = quantifier(st.value)
+                if q is not None:
+                    decided = q[0] != "all"
+                    rep = expand_quantifier(q, lambda: [ast.Return(value=ast.Constant(value=decided))], anchor)
+                    rep.append(ast.Return(value=ast.Constant(value=not decided)))
+                    mark(rep, anchor)
+                    count += 1
+                    out.extend(rep)
+                    continue
+            if isinstance(st, ast.Assign) and len(st.targets) == 1 and isinstance(st.targets[0], ast.Name):
+                q = quantifier(st.value)
+                if q is not None:
+                    seq[0] += 1
+                    lab = "quant%d" % seq[0]
+                    decided = q[0] != "all"
+                    tgt = st.targets[0].id
+                    rep = expand_quantifier(q, lambda: [ast.Assign(targets=[ast.Name(id=tgt, ctx=ast.Store())],
+                                                                   value=ast.Constant(value=decided)), leave_to(lab)], anchor)
+                    rep.append(ast.Assign(targets=[ast.Name(id=tgt, ctx=ast.Store())], value=ast.Constant(value=not decided)))
+                    blk = InlineBlock(body=rep)
+                    blk.label = lab
+                    blk.helper = "<quantifier>"
+                    mark([blk], anchor)
+                    count += 1
+                    out.append(blk)
+                    continue
+            if isinstance(st, ast.Assign) and len(st.targets) == 1 and isinstance(st.targets[0], ast.Name):
+                sel = first_match(st.value)
+                if sel is not None:
+                    tgt = st.targets[0].id
+                    elt, per, ifs, default = sel
+                    nxt = pending[0] if pending else None
+                    # the statement that follows is the only reader of the selected value: it is executed per branch
+                    sink = None
+                    if nxt is not None and isinstance(nxt, (ast.Expr, ast.Assign, ast.Return, ast.AugAssign)) and nb.get(tgt, 0) == 1:
+                        loads = [n for n in ast.walk(func_node) if isinstance(n, ast.Name) and n.id == tgt and isinstance(n.ctx, ast.Load)]
+                        if loads and all(_inside(n, nxt) for n in loads) and not any(isinstance(n, (ast.Lambda, ast.ListComp, ast.GeneratorExp)) for n in ast.walk(nxt)):
+                            sink = nxt
+
+                    def branch(val):
+                        if sink is not None and isinstance(val, (ast.Name, ast.Constant, ast.Attribute)):
+                            return [_Subst({tgt: val}).visit(clone(sink))]
+                        b = [ast.Assign(targets=[ast.Name(id=tgt, ctx=ast.Store())], value=val)]
+                        return b + ([clone(sink)] if sink is not None else [])
+                    if default is None:
+                        chain = [ast.Raise(exc=ast.Call(func=ast.Name(id="StopIteration", ctx=ast.Load()), args=[], keywords=[]), cause=None)]
+                    else:
+                        chain = branch(clone(default))
+                    for pairs in reversed(per):
+                        mapping = {nm: ex for nm, ex in pairs}
+                        val = _Subst(mapping).visit(clone(elt))
+                        conds = [_Subst(mapping).visit(clone(c)) for c in ifs]
+                        if not conds:
+                            chain = branch(val)
+                            continue
+                        test = conds[0] if len(conds) == 1 else ast.BoolOp(op=ast.And(), values=conds)
+                        chain = [ast.If(test=test, body=branch(val), orelse=chain)]
+                    mark(chain, anchor)
+                    count += 1
+                    out.extend(chain)
+                    if sink is not None:
+                        skip.add(id(sink))
+                    continue
+            if isinstance(st, ast.If):
+                neg = isinstance(st.test, ast.UnaryOp) and isinstance(st.test.op, ast.Not)
+                q = quantifier(st.test.operand if neg else st.test)
+                if q is not None:
+                    seq[0] += 1
+                    lab = "quant%d" % seq[0]
+                    # truth of the quantifier when an element decides it / when none does
+                    decided = q[0] != "all"
+                    then_on_decided = (decided != neg)
+                    body_dec = st.body if then_on_decided else st.orelse
+                    body_und = st.orelse if then_on_decided else st.body
+                    if _size(body_dec) <= 12:
+                        rep = expand_quantifier(q, lambda: clone(body_dec) + [leave_to(lab)], anchor)
+                        rep.extend(body_und)
+                        blk = InlineBlock(body=rep or [ast.Pass()])
+                        blk.label = lab
+                        blk.helper = "<quantifier>"
+                        mark([blk], anchor)
+                        count += 1
+                        out.append(blk)
+                        continue
+            out.append(st)
+        return out
+
+    func_node.body = block(func_node.body)
+    count += _beta(func_node)
+    if count:
+        relink(func_node, getattr(func_node, "_parent", None))
+    return count
+
+
+# ------------------------------------------------------------------------------------------------ assignments
+def simplify_assignments(func_node):
+    """`a, b = x, y` -> `a = x; b = y` when no later right-hand side can see an earlier target;
+    `a, b = E.groups()` -> `m_ = E; a = m_.group(1); b = m_.group(2)` (an unpacking that succeeds proves the group count).
+    Returns the number of rewritten statements."""
+    count = [0]
+    seq = [0]
+    relink(func_node, getattr(func_node, "_parent", None))
+    taken = _names(func_node)
+
+    def independent(targets, values):
+        for i, t in enumerate(targets):
+            for j in range(i + 1, len(values)):
+                e = values[j]
+                if isinstance(t, ast.Name):
+                    if t.id in _names(e):
+                        return False
+                    # a closure called in e could read the local
+                    if any(isinstance(n, ast.Lambda) for n in ast.walk(e)):
+                        return False
+                else:
+                    if any(isinstance(n, ast.Call) for n in ast.walk(e)):
+                        return False
+                    if ast.unparse(t) in _roots(e) or (_roots(t) - {ast.unparse(t)}) & set():
+                        return False
+                    base = t
+                    while isinstance(base, (ast.Attribute, ast.Subscript)):
+                        base = base.value
+                    if isinstance(t, ast.Subscript):
+                        return False
+        # targets evaluated left to right read nothing that an earlier target stores
+        for i, t in enumerate(targets):
+            for u in targets[i + 1:]:
+                if isinstance(t, ast.Name) and t.id in {n.id for n in ast.walk(u) if isinstance(n, ast.Name) and isinstance(n.ctx, ast.Load)}:
+                    return False
+        return True
+
+    def block(stmts):
+        out = []
+        for st in stmts:
+            if isinstance(st, (ast.FunctionDef, ast.AsyncFunctionDef, ast.ClassDef)):
+                out.append(st)
+                continue
+            for owner, fld, lst in _stmt_lists(st):
+                setattr(owner, fld, block(lst))
+            if isinstance(st, ast.Assign) and len(st.targets) == 1 and isinstance(st.targets[0], (ast.Tuple, ast.List)) \
+                    and not any(isinstance(t, ast.Starred) for t in st.targets[0].elts):
+                tg = st.targets[0].elts
+                v = st.value
+                if isinstance(v, (ast.Tuple, ast.List)) and len(v.elts) == len(tg) and not any(isinstance(x, ast.Starred) for x in v.elts) \
+                        and independent(tg, v.elts):
+                    for t, e in zip(tg, v.elts):
+                        out.append(ast.copy_location(ast.Assign(targets=[t], value=e), st))
+                    count[0] += 1
+                    continue
+                if isinstance(v, ast.Call) and isinstance(v.func, ast.Attribute) and v.func.attr == "groups" and not v.args and not v.keywords \
+                        and all(isinstance(t, ast.Name) for t in tg):
+                    recv = v.func.value
+                    if isinstance(recv, ast.Name):
+                        mname = recv.id
+                    else:
+                        seq[0] += 1
+                        mname = "match_%d" % seq[0]
+                        while mname in taken:
+                            seq[0] += 1
+                            mname = "match_%d" % seq[0]
+                        out.append(ast.copy_location(ast.Assign(targets=[ast.Name(id=mname, ctx=ast.Store())], value=recv), st))
+                    if mname not in {t.id for t in tg}:
+                        for i, t in enumerate(tg):
+                            call = ast.Call(func=ast.Attribute(value=ast.Name(id=mname, ctx=ast.Load()), attr="group", ctx=ast.Load()),
+                                            args=[ast.Constant(value=i + 1)], keywords=[])
+                            out.append(ast.copy_location(ast.Assign(targets=[t], value=call), st))
+                        for n_ in out[-len(tg) - 1:]:
+                            ast.fix_missing_locations(n_)
+                        count[0] += 1
+                        continue
+                    elif not isinstance(recv, ast.Name):
+                        out.pop()
+            out.append(st)
+        return out
+    func_node.body = block(func_node.body)
+    if count[0]:
+        relink(func_node, getattr(func_node, "_parent", None))
+    return count[0]
+
+
+def lift_conditionals(func_node):
+    """`x = A if T else B` / `return A if T else B` -> an if statement with one assignment / return per branch, so that the flow
+    graph carries T as a fact over A and B.  Returns the number of lifted statements."""
+    count = [0]
+
+    def block(stmts):
+        out = []
+        for st in stmts:
+            if isinstance(st, (ast.FunctionDef, ast.AsyncFunctionDef, ast.ClassDef)):
+                out.append(st)
+                continue
+            for owner, fld, lst in _stmt_lists(st):
+                setattr(owner, fld, block(lst))
+            v = getattr(st, "value", None)
+            if isinstance(st, (ast.Assign, ast.Return, ast.AnnAssign)) and isinstance(v, ast.IfExp):
+                if isinstance(st, ast.Assign) and not all(isinstance(t, (ast.Name, ast.Attribute)) for t in st.targets):
+                    out.append(st)  # a subscript target is evaluated after the value: keep the order as written
+                    continue
+                def mk(val):
+                    if isinstance(st, ast.Return):
+                        new = ast.Return(value=val)
+                    elif isinstance(st, ast.AnnAssign):
+                        new = ast.Assign(targets=[clone(st.target)], value=val)
+                    else:
+                        new = ast.Assign(targets=[clone(t) for t in st.targets], value=val)
+                    new = ast.copy_location(new, st)
+                    return block([new])
+                node = ast.copy_location(ast.If(test=v.test, body=mk(v.body), orelse=mk(v.orelse)), st)
+                count[0] += 1
+                out.append(node)
+                continue
+            out.append(st)
+        return out
+    func_node.body = block(func_node.body)
+    if count[0]:
+        relink(func_node, getattr(func_node, "_parent", None))
+    return count[0]
